@@ -24,6 +24,7 @@ inline const std::vector<std::string>& base_menu() {
       "mailto:user@example.com?subject=x",          // opaque path with query
       "a:o p ",                                     // opaque path with inner and trailing space
       "file:///c:x",                                // file, single segment that only starts like a drive letter
+      "a:/.//p/q?r#s",                              // non-special, '/.' guarded path with two segments (guard survives shortening)
   };
   return b;
 }
@@ -54,7 +55,7 @@ inline ProdMenus prod_menus(bool thorough) {
         /*scheme*/ {"http:", "HTTPS:", "file:", "a:", ""},
         /*slashes*/ {"//", "/", "\\\\", ""},
         /*userinfo*/ {"", "u:p@", "@"},
-        /*host*/ {"example.com", "EXAMPLE.com", "1.2.3.4", "0x7f.1", "a.0XAB", "[1::2]", EACUTE ".com", "a%2Eb", "LOCALHOST", "loc%61lhost", h16 + ".com", h17, ""},
+        /*host*/ {"example.com", "EXAMPLE.com", "1.2.3.4", "0x7f.1", "a.0XAB", "[1::2]", "[A::100]", EACUTE ".com", "a%2Eb", "LOCALHOST", "loc%61lhost", h16 + ".com", h17, ""},
         /*port*/ {"", ":80", ":443", ":008", ":00", ":1000"},
         /*path*/ {"", "/", "/a/../b/./c", "/a/../b/.c", "/%2e%2E/x", "\\x\\y", "/" + h16 + "/" + h17},
         /*query*/ {"", "?", "?a='" EACUTE " b"},
@@ -66,7 +67,7 @@ inline ProdMenus prod_menus(bool thorough) {
         /*scheme*/ {"http:", "HTTPS:", "ws:", "wss:", "ftp:", "file:", "a:", "A+b.c-:", "blob:", ""},
         /*slashes*/ {"//", "/", "\\\\", "/\\", "///", ""},
         /*userinfo*/ {"", "u:p@", "@", "u@", ":p@", "u:p:q@x@", EACUTE ":" EACUTE "@"},
-        /*host*/ {"example.com", "EXAMPLE.com", "1.2.3.4", "0x7f.1", "1.2.3.4.", "256.1.1.1", "09", "0x", "1.2.3", "[1::2]",
+        /*host*/ {"example.com", "EXAMPLE.com", "1.2.3.4", "0x7f.1", "1.2.3.4.", "256.1.1.1", "09", "0x", "1.2.3", "[1::2]", "[A::100]",
                   "[::1.2.3.4]", "[1:2:3:4:5:6:7:8]", "[1::2", EACUTE ".com", "xn--nxasmq6b", "xn--", "a%2Eb", "a b", "a^b", "a.b.",
                   h15, h16, h17, h31, h32, h33 + ".x", h48, "a.0XAB", "srv.0xFf.", "0X7F.1", "LOCALHOST", "loc%61lhost", "localhost", ""},
         /*port*/ {"", ":80", ":443", ":21", ":008", ":0", ":65535", ":65536", ":", ":8a", ":9", ":10", ":99", ":100", ":999", ":1000", ":9999", ":10000", ":00", ":0000000000000"},
@@ -139,7 +140,7 @@ inline const std::vector<std::string>& init_urls() {
       "https://" EACUTE "sp.example/", "ws://h/", "wss://h:444/x", "ftp://u@h/d/f", "file:///C:/x/y", "file://host/s/f",
       "file:///", "a://h:1/p?q#f", "a://u:p@h/p", "a:///p", "a:/p/q", "a:/.//p", "a:p", "a:o p ", "a:o p ?q",
       "mailto:u@h?s=1#f", "blob:https://h/id", "http://h/?#", "a://h", "a://h?q", "http://h:0/", "https://h/a/../b",
-      "a:/", "a:", "http://h:1000/p", "a://h:10000", "file:///c:x", "file:///C:", "blob:ws://h/p", "blob:ftp://h/", "blob:blob:https://h/x", "blob:file:///x", "blob:a://h/",
+      "a:/", "a:", "http://h:1000/p", "a://h:10000", "file:///c:x", "file:///C:", "blob:ws://h/p", "blob:ftp://h/", "blob:blob:https://h/x", "blob:file:///x", "blob:a://h/", "a:/.//p/q",
   };
   return u;
 }
